@@ -30,6 +30,12 @@ const ARG_POOL: &[&str] = &[
     "[3, 1, 2, 1e308, -1e308, 0.5, 9007199254740993, 9007199254740992, 9007199254740994, null, \"a\", true, [], {}, 2, 3, 1, 0, -1, 1.5, 2.5, 7, 8, 9, 10, 11, 12, 13, 14, 15, 16, 17, 18]",
 ];
 
+/// numeric edge values: a third of the calls draw all their arguments from here, so that
+/// every pair of them meets every binary function within a quick run
+const EDGE_NUMBERS: &[&str] = &[
+    "-9223372036854775808", "-1", "0", "1", "9223372036854775807", "18446744073709551615", "1e308", "-0.5",
+];
+
 const SMALL_ARGS: &[&str] = &["0", "1", "2", "3", "10", "100", "-1", "1.5", "null", "\"a\"", "[1, 2]", ".arr"];
 
 /// functions whose cost is driven by a numeric argument: literals stay small (resource
@@ -113,7 +119,12 @@ fn gen_illtyped_expr(rng: &mut Rng, depth: usize) -> String {
     let max = if f.max == usize::MAX { f.min + 2 } else { f.max };
     let n = rng.range(f.min, max.max(f.min));
     let mut args = Vec::new();
+    let edges_only = rng.chance(1, 3);
     for _ in 0..n {
+        if edges_only && !(amplifier(name) || amplifier(f.name)) {
+            args.push((*rng.pick(EDGE_NUMBERS)).to_string());
+            continue;
+        }
         if amplifier(name) || amplifier(f.name) {
             args.push((*rng.pick(SMALL_ARGS)).to_string());
         } else if depth > 0 && rng.chance(1, 5) {
